@@ -81,6 +81,10 @@ class ContainerCopy(FunctionContract):
     qualname = 'fsic.core.containers.VectorContainer.copy'
     props = ('C11',)
 
+    def scenarios(self):
+        # 'second-copy': the object has been copied before in this process and changed since (nothing is remembered between calls)
+        return ['default', 'second-copy']
+
     def setup(self, interp, scenario):
         ctx = interp.ctx
         n = ctx.fresh('n', INT)
@@ -89,7 +93,15 @@ class ContainerCopy(FunctionContract):
         class Sub(VectorContainer):
             pass
         obj = SObj(Sub, container_fields(ctx, 'c', n), label='orig')
-        return Call([], {}, self_obj=obj, entry={'obj': obj, 'inputs': {'n': n}})
+        e = {'obj': obj, 'inputs': {'n': n}}
+        if scenario == 'second-copy':
+            from pyvc.extract import get_function
+            fi = get_function(self.qualname)
+            e['first'] = interp.call_function(fi, [obj], {}, self_obj=obj)
+            # the original moves on: another series object, another attribute value
+            obj.fields['_X'] = SArr(n, ctx.fresh('c.X.later', z3.ArraySort(INT, F64)), 'float')
+            obj.fields['meta'] = OpaqueMutable(11)
+        return Call([], {}, self_obj=obj, entry=e)
 
     def post(self, interp, scenario, call, out):
         ctx = interp.ctx
@@ -97,6 +109,10 @@ class ContainerCopy(FunctionContract):
             ctx.prove(False, f'copy_does_not_raise:{getattr(exc_class(out.exc), "__name__", "?")}@{getattr(out.exc, "origin", "")}', 'raises')
             return
         ownership_obligations(ctx, call.entry['obj'], out.value)
+        first = call.entry.get('first')
+        if first is not None and isinstance(out.value, SObj):
+            shared = [k for k, v in out.value.fields.items() if not isinstance(v, SHARED_IMMUTABLE) and any(v is w for w in first.fields.values())]
+            ctx.prove(z3.BoolVal(out.value is not first and not shared), 'a_later_copy_shares_nothing_with_an_earlier_copy', 'own', note=str(shared))
 
 
 class LinkerCopy(FunctionContract):
@@ -113,7 +129,8 @@ class LinkerCopy(FunctionContract):
             pass
         subs = {'A': SObj(M, container_fields(ctx, 'A', n), label='A'), 'B': SObj(M, container_fields(ctx, 'B', n), label='B')}
         f = container_fields(ctx, 'L', n)
-        f.update(submodels=subs, name='_', _LAGS=1, _LEADS=0)
+        # (attributes named like a fragment of 'submodels' are attributes like any other)
+        f.update(submodels=subs, name='_', _LAGS=1, _LEADS=0, model=OpaqueMutable(7), sub='text', e=2.5)
         obj = SObj(BaseLinker, f, label='linker')
 
         def init(interp_, o, args, kwargs, node):
